@@ -66,6 +66,9 @@ Step ==
        [] e.ev = "Panic" ->
             /\ Report(l, {"C03_nocrash"}, scen) /\ dead' = TRUE
             /\ UNCHANGED <<scen, cfg, arrived, pos, nextFrame, rep, fill>>
+       [] e.ev = "FailStop" ->    \* the reader's deliberate panic on a full hand-off channel (consumer 100 buffers behind): the run is over,
+            \* nothing more is demanded; every block handed over before has been judged
+            /\ dead' = TRUE /\ UNCHANGED <<scen, cfg, arrived, pos, nextFrame, rep, fill>>
        [] e.ev = "End" ->
             /\ IF dead \/ ~e.flushed THEN TRUE ELSE
                 Report(l, Iff(\E g \in Groups : pos # (e.L[g] - cfg.F + 1) * cfg.fpp[g], "C03_count")
